@@ -48,7 +48,11 @@ def child_env(prop: str, hashseed: str = "0") -> dict:
         env["NUMBA_NUM_THREADS"] = "1"
     # VERIF_NUMBA_CACHE: dev tooling running many scratch trees side by side gives each its own
     # directory (and turns pruning off) so that concurrent drivers never prune one another
-    cache = os.environ.get("VERIF_NUMBA_CACHE") or os.path.join(VERIF, ".cache", "numba-" + tree_hash(repo))
+    # compiled kernels check their array indices: an out-of-range index in a serial kernel raises IndexError (a
+    # deterministic, replayable failure) instead of corrupting the heap; the flag is not part of numba's cache
+    # key, hence part of the directory name
+    env.setdefault("NUMBA_BOUNDSCHECK", "1")
+    cache = os.environ.get("VERIF_NUMBA_CACHE") or os.path.join(VERIF, ".cache", f"numba-bc{env['NUMBA_BOUNDSCHECK']}-" + tree_hash(repo))
     os.makedirs(cache, exist_ok=True)
     env["NUMBA_CACHE_DIR"] = cache
     env["SIGPYPROC_VERIF"] = "1"
@@ -124,9 +128,19 @@ def main() -> int:
         # 1. warm-up: one process compiles the kernels into the cache
         w = subprocess.run([PY, "-m", "sim.warm", prop], cwd=VERIF, env=child_env(prop), capture_output=True,
                            text=True, timeout=1800)
-        if w.returncode != 0:
-            print("HARNESS-ERROR warm-up failed\n" + w.stdout[-3000:] + w.stderr[-3000:])
+        if w.returncode < 0:
+            # the library's most basic calls (every check's warm-up) kill the interpreter
+            os.makedirs(os.path.join(VERIF, "replays"), exist_ok=True)
+            path = os.path.join(VERIF, "replays", f"{prop}-warmup-crash.json")
+            with open(path, "w") as fp:
+                json.dump({"warmup_only": True, "property": prop, "expect": {"class": f"{prop}/process-died", "signal": -w.returncode}}, fp, indent=1)
+            if replay(prop, path) == 1:
+                return 1
+            print("HARNESS-ERROR warm-up died once but not when repeated\n" + w.stderr[-3000:])
             return 2
+        if w.returncode != 0:
+            # the library raised in the warm-up calls: not judged here - the runs meet the same exception
+            print("NOTE warm-up raised (continuing; the runs judge it): " + (w.stderr.strip().splitlines() or ["?"])[-1][:300])
         t_warm = time.time() - t0
         # 2. workers + one determinism worker under a different PYTHONHASHSEED
         procs = []
@@ -146,7 +160,7 @@ def main() -> int:
                 so, _ = p.communicate()
                 harness_errors.append(f"worker {s} wall-clock kill\n{so[-2000:]}")
                 continue
-            if p.returncode < 0 and os.path.exists(out[:-5] + ".cur") and s >= 0:
+            if p.returncode < 0 and os.path.exists(out[:-5] + ".cur"):
                 # the interpreter was killed by a signal while executing library code on an
                 # in-domain scenario: reported as a violation iff the scenario kills a fresh
                 # interpreter again (see finish_crashes)
@@ -184,8 +198,10 @@ def main() -> int:
 def finish_crashes(prop, crashes) -> int:
     os.makedirs(os.path.join(VERIF, "replays"), exist_ok=True)
     rc = 0
+    os.makedirs(os.path.join(VERIF, "replays"), exist_ok=True)
     for s, code, sc, tail in crashes[:3]:
         sc = dict(sc)
+        wk = sc.pop("_worker", None)
         sc["expect"] = {"class": f"{prop}/process-died", "signal": -code,
                         "detail": "the interpreter was killed by a signal inside library code (memory-unsafe kernel call?)"}
         name = f"{prop}-crash-{hashlib.sha1(json.dumps(sc, sort_keys=True).encode()).hexdigest()[:12]}.json"
@@ -197,9 +213,24 @@ def finish_crashes(prop, crashes) -> int:
             print(f"VIOLATION property={prop} replay={path}")
             print(f"  class={prop}/process-died run={sc.get('run')} detail=worker {s} and the replay both died with signal {-p.returncode}")
             rc = 1
-        else:
-            print(f"HARNESS-ERROR worker {s} died with signal {-code} at run {sc.get('run')} but the replay did not (rc={p.returncode})\n{tail}")
-            return 2
+            continue
+        # not with this scenario alone: with what the worker had executed before it?
+        w = wk or {}
+        if w:
+            hist = {"property": prop, "history": {"seed": sc.get("seed"), "tier": w["tier"], "stripe": w["stripe"], "nstripes": w["nstripes"], "upto": sc.get("run")},
+                    "expect": {"class": f"{prop}/process-died", "signal": -code,
+                               "detail": "the interpreter was killed by a signal after this sequence of scenarios (memory corrupted by earlier library calls)"}}
+            hpath = os.path.join(VERIF, "replays", f"{prop}-crash-history-s{sc.get('seed')}-w{w['stripe']}of{w['nstripes']}-upto{sc.get('run')}.json")
+            with open(hpath, "w") as fp:
+                json.dump(hist, fp, indent=1, sort_keys=True)
+            p2 = subprocess.run([PY, "-m", "sim.replay", prop, hpath], cwd=VERIF, env=child_env(prop), capture_output=True, text=True, timeout=3000)
+            if p2.returncode < 0:
+                print(f"VIOLATION property={prop} replay={hpath}")
+                print(f"  class={prop}/process-died run={sc.get('run')} detail=worker {s} died with signal {-code}; re-executing its scenarios in order in a fresh interpreter died with signal {-p2.returncode}")
+                rc = 1
+                continue
+        print(f"HARNESS-ERROR worker {s} died with signal {-code} at run {sc.get('run')} but the replay did not (rc={p.returncode})\n{tail}")
+        return 2
     return rc
 
 
@@ -241,15 +272,11 @@ def finish(prop, meta, tier, seed, results, det_res, t0, t_warm, jobs, no_eviden
     violations = sorted((v for r in results for v in r["violations"]), key=lambda v: v["run"])
     vcount = sum(r.get("violation_count", 0) for r in results)
     rc = 0
-    if errors:
-        print(f"HARNESS-ERROR {len(errors)} run(s) raised inside the harness; first:")
-        print(json.dumps(errors[0], indent=1)[:6000])
-        rc = 2
     det_failed = bool(mism)
     for kid, e in sorted(known_lines.items()):
         print(f"KNOWN-FINDING: property={prop} {kid}: {e['what']} (hit {e['count']}x, e.g. run {e['example_run']})")
     replay_paths = []
-    if violations and rc == 0:
+    if violations:
         os.makedirs(os.path.join(VERIF, "replays"), exist_ok=True)
         seen = set()
         unconfirmed = []
@@ -297,6 +324,15 @@ def finish(prop, meta, tier, seed, results, det_res, t0, t_warm, jobs, no_eviden
         elif unconfirmed:
             v, tail = unconfirmed[0]
             print(f"HARNESS-ERROR replay of run {v['run']} ({v['class']}) did not reproduce:\n{tail}")
+            rc = 2
+    if errors:
+        if rc == 1:
+            # a confirmed, replayable violation takes precedence: exceptions the harness could not attribute to a
+            # call under test are then, most likely, the same defect met in a context call
+            print(f"NOTE {len(errors)} run(s) raised outside any call under test, first: " + str(errors[0].get("error", ""))[:400].replace("\n", " | "))
+        else:
+            print(f"HARNESS-ERROR {len(errors)} run(s) raised inside the harness; first:")
+            print(json.dumps(errors[0], indent=1)[:6000])
             rc = 2
     if det_failed:
         if rc == 1:
